@@ -132,6 +132,10 @@ def module_case(arg):
             if model.get("ok") == "1":
                 out["ok_structs"] += 1
             diffs = observe.compare(model, results[cid])
+            if diffs:
+                diffs, exc = observe.reconcile(m, s.name, cppsuite.pdict(s, params), data, diffs,
+                                               common.case_rng(arg["seed"], "c01-completion-" + cid, arg["idx"]))
+                out["known_beyond_strict_confirmed_by_completions"] = out.get("known_beyond_strict_confirmed_by_completions", 0) + exc
             sig = (arg["idx"], si, model.get("ok"), model.get("complete"),
                    tuple(v for k, v in sorted(model.items()) if k.endswith(".has")))
             out["distinct"].append(hash(sig))
@@ -208,6 +212,7 @@ def run(ctx):
         ctx.count("keys_compared", v["keys"] - v["unspec"])
         ctx.count("keys_unspecified", v["unspec"])
         ctx.count("ok_structures", v["ok_structs"])
+        ctx.count("known_beyond_strict_confirmed_by_completions", v.get("known_beyond_strict_confirmed_by_completions", 0))
         ctx.count("prefix_series", v["mono_series"])
         ctx.count("prefix_items_tracked", v["mono_items"])
         for k, c in v["features"].items():
@@ -266,6 +271,9 @@ def replay(path):
                 continue
             model = observe.observe(m, s.name, cppsuite.pdict(s, rp["params"]), data[:L])
             diffs = observe.compare(model, res["r"])
+            if diffs:
+                diffs, _exc = observe.reconcile(m, s.name, cppsuite.pdict(s, rp["params"]), data[:L], diffs,
+                                                common.case_rng(0, "c01-completion", L))
             if diffs:
                 bad += 1
                 print("len %d: %s" % (L, diffs[:6]))
